@@ -1222,6 +1222,36 @@ pub fn check_c05(obs: &Observation) -> V {
             }
         }
     }
+    // the optional lane `o` of the pair agent: its value can have the empty encoding
+    if obs.cfg.extra == "pair-agent" {
+        if let Some(id) = id_of("o") {
+            let puts: Vec<(u64, Vec<u8>)> = calls.iter().filter(|(_, inst, _)| *inst == 1).filter_map(|(s, _, c)| if let StoreCall::Put(i, b) = c { if *i == id { Some((*s, b.clone())) } else { None } } else { None }).collect();
+            for (ri, r) in obs.remotes.iter().enumerate() {
+                for f in r.frames.iter().filter(|f| f.lane == "o" && f.kind == FrameKind::Event) {
+                    let b = body_str(f);
+                    if b == "7" {
+                        continue; // the initial value, never handed to the store
+                    }
+                    if !puts.iter().any(|(s, p)| *s <= f.step && p.as_slice() == b.as_bytes()) {
+                        add(
+                            "as: optional value lane state published to a subscriber before it was handed to the store".into(),
+                            format!("remote {} read {:?} on o at step {}; store puts {:?}", ri, b, f.step, puts),
+                        );
+                    }
+                }
+            }
+            let restored = obs.truth2.iter().find_map(|(_, t)| if let Truth::Custom(c) = t { c.strip_prefix("start:o=").map(|x| x.to_string()) } else { None });
+            if let Some(restored) = restored {
+                let want = puts.last().map(|(_, b)| String::from_utf8_lossy(b).to_string()).unwrap_or_else(|| "7".to_string());
+                if restored != want {
+                    add(
+                        "as: restarted optional value lane does not hold the last value handed to the store".into(),
+                        format!("lane o restarted with {:?}; the last value handed to the store was {:?} (\"\" = None)", restored, want),
+                    );
+                }
+            }
+        }
+    }
     out
 }
 
